@@ -95,7 +95,8 @@ def mutate_pair(rng, live, r, benign=False):
         kids_live *= n
         tr["c"] = gen.flat_children(tr) * n
         m = "repeat_children_x%d" % n
-    elif m == "rotate_children" and len(t.children) >= 2 and len(t.children) == len(gen.flat_children(tr)):
+    elif m == "rotate_children" and len(t.children) >= 2 and len(t.children) == len(gen.flat_children(tr)) and not isinstance(t.children[0], ht.TagList):
+        # (a list stored as a node would be spliced by append(): it is not a node that can be re-appended whole)
         first = t.children.pop(0)
         t.append(first)
         kids = gen.flat_children(tr)
